@@ -535,6 +535,21 @@ def r5_attack_map(ctx):
             if f0[0] == 'bin' and f0[1] == 'BitOr' and any(s[0] == 'lv' and s[2] == l for s in subterms(f0)):
                 init = head[3].get(l)
                 oku = init is not None and bb_of(init) == 0
+    if not oku:
+        # the same union written as a fold: list.iter().fold(EMPTY, |acc, &(_, t)| acc | t) returned as the result
+        for o in outs:
+            if o.kind != 'return' or not o.value or o.value[0] != 'call' or not o.value[1].endswith('::fold'):
+                continue
+            it, init, clo = o.value[2][0], o.value[2][1], o.value[2][2]
+            lists = {show(strip_refs(e[2][1] if 'precomputed' in e[1] or 'sliding' in e[1] else e[2][0])) for e in o.events if e[0] == 'call' and e[1] in parts}
+            if clo[0] == 'agg' and clo[1] == 'closure' and bb_of(init) == 0 and len(lists) == 1:
+                co = Engine(facts).run(clo[2])
+                ctx.touch(clo[2])
+                if len(co) == 1 and co[0].kind == 'return' and not co[0].conds:
+                    v = co[0].value
+                    core = v[4][0][1] if v[0] == 'agg' and v[4] else v
+                    acc, el = ('fld', ('p', 2), '0'), ('fld', ('fld', ('der', ('p', 3)), '1'), '0')
+                    oku = core in (('bin', 'BitOr', acc, el), ('bin', 'BitOr', el, acc))
     ctx.ob(rule, name, 'result = union of all target sets, starting from EMPTY', oku, expected='attack_targets |= targets')
     # sliding arms
     name = TGT + 'Targets::generate_sliding_targets'
@@ -600,39 +615,43 @@ def r4b_pawn_captures(ctx):
     outs = Engine(facts, opaque=opaque, readonly={BOARD + '::pieces', PS + '::occupied', CHESSMOVE + '::to_square', CHESSMOVE + '::from_square', CHESSMOVE + '::captures'},
                   max_paths=4000).run(name)
     ctx.touch(name)
-    caps = None
-    clo = None
-    for o in outs:
-        for e in o.events:
-            if e[0] == 'call' and e[1].endswith('Iterator>::for_each') and e[2][1][0] == 'agg' and e[2][1][1] == 'closure':
-                clo = e[2][1][2]
-    for o in outs:
-        for e in o.events:
-            if e[0] == 'closure' and e[1] == clo:
-                caps = e[2]
-    if clo is None:
-        ctx.anchor_missing(rule, name, 'capture-filter closure (for_each over the attack targets) not found')
-        return
-    ok_mask = False
-    detail = None
-    if caps:
-        s = [show(c) for c in caps]
-        detail = s
-        ok_mask = any('occupied' in x and 'pieces' in x and 'opposite(arg3)' in x for x in s)
-    ctx.ob(rule, name, 'capture mask = occupancy of the opponent (color.opposite())', ok_mask, found=detail, expected='board.pieces(color.opposite()).occupied()',
-           why='masking with the own occupancy would let pawns capture their own pieces and never the enemy\'s')
-    couts = Engine(facts).run(clo)
-    ctx.touch(clo)
-    ok = False
-    for o in couts:
-        pushes = [e for e in o.events if e[0] == 'call' and e[1].endswith('::push')]
-        for e in pushes:
+    # the per-element body that fills the capture list, written as a closure (for_each) or as a loop
+    bodies = iteration_bodies(facts, name, outs)
+    found, n_push, ok_all = [], 0, True
+    for b in bodies:
+        for e in b['events']:
+            if not (e[0] == 'call' and e[1].endswith('::push')):
+                continue
+            dst = strip_refs_t(e[2][0])
+            if dst == ('p', 1):
+                continue                      # pushes onto the caller's move list (promotions), not onto the capture list
             tup = e[2][1]
-            tgt = tup[4][1][1]
+            if not (tup[0] == 'agg' and len(tup[4]) == 2):
+                continue
+            n_push += 1
+            pawn_t, tgt = tup[4][0][1], tup[4][1][1]
             core = tgt[4][0][1] if tgt[0] == 'agg' else tgt
-            cond_ok = any(a == core and not is_false(v) for a, v in o.conds)
-            ok = core[0] == 'bin' and core[1] == 'BitAnd' and 'upvar0' in show(core) and 'arg2.1' in show(core) and cond_ok and 'arg2.0' in show(tup[4][0][1])
-    ctx.ob(rule, clo, 'kept target = attack squares & mask, only when non-empty, for the same pawn', ok, expected='if target.overlaps(mask) { push((pawn, target & mask)) }')
+            okp = False
+            if core[0] == 'bin' and core[1] == 'BitAnd':
+                for x, m in ((core[2], core[3]), (core[3], core[2])):
+                    ms = show(m)
+                    is_mask = 'occupied' in ms and 'pieces' in ms and 'opposite(arg3)' in ms
+                    # x = <elem>.1.0 and pawn = <elem>.0 for the same element
+                    el = x[1][1] if (x[0] == 'fld' and x[2] == '0' and x[1][0] == 'fld' and x[1][2] == '1') else None
+                    same = el is not None and pawn_t == ('fld', el, '0')
+                    guarded = any(a == core and not is_false(v) for a, v in b['conds'])
+                    if is_mask and same and guarded:
+                        okp = True
+            found.append({'form': b['form'], 'pushed': show(tup)[:200], 'conds': [show_cond(c) for c in b['conds']][-2:]})
+            ok_all = ok_all and okp
+    if n_push == 0:
+        ctx.anchor_missing(rule, name, 'no push onto the capture-target list found (closure or loop)')
+        return
+    ctx.ob(rule, name, 'capture mask = occupancy of the opponent (color.opposite())', ok_all and n_push >= 1, found=found,
+           expected='if target.overlaps(mask) { push((pawn, target & mask)) } with mask = board.pieces(color.opposite()).occupied()',
+           why='masking with the own occupancy would let pawns capture their own pieces and never the enemy\'s')
+    ctx.ob(rule, name, 'kept target = attack squares & mask, only when non-empty, for the same pawn', ok_all and n_push >= 1, found=found,
+           expected='if target.overlaps(mask) { push((pawn, target & mask)) }')
     # the attack targets fed to the closure are those of the same colour
     gen = [e for o in outs for e in o.events if e[0] == 'call' and e[1] == TGT + 'generate_pawn_attack_targets']
     okc = bool(gen) and all(e[2][2] == ('p', 3) and e[2][1] == ('ref', ('der', ('p', 2))) for e in gen)
@@ -647,27 +666,40 @@ def r7_promotions(ctx):
     ctx.ob(rule, MGM + 'PAWN_PROMOTIONS', 'exactly {Queen, Rook, Bishop, Knight}', names is not None and sorted(names) == ['Bishop', 'Knight', 'Queen', 'Rook'] and len(names) == 4,
            found=names, expected=['Queen', 'Rook', 'Bishop', 'Knight'])
     ctx.ob(rule, MGM + 'PAWN_PROMOTIONS', 'queen first (a coordinate pair naming a promotion plays the queen)', bool(names) and names[0] == 'Queen', found=names, nontrivial=False)
-    # partition predicate
+    # partition predicate: the last-rank mask per colour, wherever the colour is tested (inside the predicate or hoisted out of it)
     name = MGM + 'generate_pawn_moves'
-    clos = facts.closures_of(name)
     tbl = {}
-    for c in clos:
-        for col in ('White', 'Black'):
-            pass
-    # the partition closure captures the colour; evaluate it with the captured colour made constant through the closure env
-    for c in clos:
-        outs = Engine(facts, readonly={CHESSMOVE + '::to_square'}).run(c.name)
-        for o in outs:
-            if o.kind != 'return':
-                continue
-            cdv = [v2 for a, v2 in o.conds if a[0] == 'discr']
-            masks = [s[1] for s in subterms(o.value) if s[0] == 'c' and isinstance(s[1], int) and s[1] in (RANK[8], RANK[1])]
-            if len(cdv) == 1 and len(masks) == 1:
+    pouts = Engine(facts, opaque={TGT + 'generate_pawn_move_targets', TGT + 'generate_pawn_attack_targets', MGM + 'expand_piece_targets', MGM + 'generate_en_passant_moves'},
+                   readonly={CHESSMOVE + '::to_square', CHESSMOVE + '::from_square', CHESSMOVE + '::captures'}, max_paths=4000).run(name)
+    part_clo = set()
+    for o in pouts:
+        for e in o.events:
+            if e[0] == 'call' and e[1].endswith('Iterator::partition') and e[2][1][0] == 'agg' and e[2][1][1] == 'closure':
+                part_clo.add(e[2][1][2])
+    polarity_ok = True
+    for b in iteration_bodies(facts, name, pouts, engine=lambda: Engine(facts, readonly={CHESSMOVE + '::to_square'})):
+        if b['form'] != 'closure' or b['where'] not in part_clo or b['value'] is None:
+            continue
+        ctx.touch(b['where'])
+        cdv = [v2 for a, v2 in b['conds'] + b['parent_conds'] if a == ('discr', ('p', 3)) and isinstance(v2, int)]
+        val = b['value']
+        masks = [s_[1] for s_ in subterms(val) if s_[0] == 'c' and isinstance(s_[1], int) and not isinstance(s_[1], bool) and s_[1] in (RANK[8], RANK[1])]
+        if len(set(cdv)) == 1 and len(masks) == 1:
+            if cdv[0] in tbl and tbl[cdv[0]] != masks[0]:
+                tbl[cdv[0]] = None
+            else:
                 tbl[cdv[0]] = masks[0]
-                ctx.touch(c.name)
+            # true = "stays an ordinary move": the predicate must be `to & rank == 0`
+            try:
+                sq_t = [s_ for s_ in subterms(val) if s_[0] == 'call' and s_[1] == CHESSMOVE + '::to_square']
+                on = ev(val, {('fld', sq_t[0], '0'): masks[0] & -masks[0], sq_t[0]: masks[0] & -masks[0]}) if sq_t else None
+                off = ev(val, {('fld', sq_t[0], '0'): 1 << 27, sq_t[0]: 1 << 27}) if sq_t else None
+                polarity_ok = polarity_ok and on == 0 and off == 1
+            except Unevaluable:
+                polarity_ok = False
     cd = cdiscr(facts)
     want = {cd['White']: RANK[8], cd['Black']: RANK[1]}
-    ctx.ob(rule, name, 'promotion rank: rank 8 for White, rank 1 for Black', tbl == want, found={k: hex(v) for k, v in tbl.items()}, expected={k: hex(v) for k, v in want.items()})
+    ctx.ob(rule, name, 'promotion rank: rank 8 for White, rank 1 for Black', tbl == want and polarity_ok, found={k: hex(v) for k, v in tbl.items()}, expected={k: hex(v) for k, v in want.items()})
     # expansion over the whole constant
     fn = facts.need_fn(name)
     outs = Engine(facts, opaque={TGT + 'generate_pawn_move_targets', TGT + 'generate_pawn_attack_targets', MGM + 'expand_piece_targets', MGM + 'generate_en_passant_moves'},
